@@ -81,6 +81,9 @@ type fileBuf struct {
 	lex  []XLex
 	// afterText: the last thing written was an unparenthesised Description text (comments/trailing blanks are text there)
 	afterText bool
+	// afterSchema: the last thing written was a schema or enum body; the lines that follow are still looked at by the schema
+	// library, which knows "# comment" and "### block ###" but not a bare "##"
+	afterSchema bool
 }
 
 type renderer struct {
@@ -167,7 +170,14 @@ func (r *renderer) node(fb *fileBuf, n *Node, depth int) {
 			r.eol(fb)
 		}
 	} else {
-		switch l.Choose("sep", 5) {
+		nsep := 6
+		if fb.afterSchema {
+			nsep = 5
+		}
+		switch l.Choose("sep", nsep) {
+		case 5:
+			fb.w(ind + "##") // a comment that consists of two hash signs only
+			r.eol(fb)
 		case 1:
 			r.eol(fb)
 		case 2:
@@ -184,6 +194,7 @@ func (r *renderer) node(fb *fileBuf, n *Node, depth int) {
 		}
 	}
 	fb.afterText = false
+	fb.afterSchema = false
 	fb.w(ind)
 	// keyword
 	kb := fb.b.Len()
@@ -213,14 +224,19 @@ func (r *renderer) node(fb *fileBuf, n *Node, depth int) {
 	annStyle := 0
 	if n.Ann != "" {
 		annStyle = l.Choose("ann", 5)
+		// a keyword without parameters may be followed by its annotation without a blank
+		glue := " "
+		if len(params) == 0 && l.Choose("annglue", 2) == 1 {
+			glue = ""
+		}
 		switch annStyle {
 		case 0:
-			fb.w(" //")
+			fb.w(glue + "//")
 			ab := fb.b.Len()
 			fb.w(" " + n.Ann)
 			fb.lex = append(fb.lex, XLex{"A", ab, fb.b.Len() - 1, " " + n.Ann})
 		case 1:
-			fb.w(" /*")
+			fb.w(glue + "/*")
 			ab := fb.b.Len()
 			fb.w(" " + n.Ann + " ")
 			fb.lex = append(fb.lex, XLex{"A", ab, fb.b.Len() - 1, " " + n.Ann + " "})
@@ -337,6 +353,7 @@ func (r *renderer) node(fb *fileBuf, n *Node, depth int) {
 				}
 				fb.w(ln)
 				if i == len(lines)-1 {
+					fb.afterSchema = n.Body == SchemaBody || n.Body == EnumBody
 					t := map[int]string{SchemaBody: "S", RegexBody: "T", EnumBody: "E"}[n.Body]
 					fb.lex = append(fb.lex, XLex{t, bb, fb.b.Len() - 1, ""})
 					// trailing blanks / a comment on the last line of the body
